@@ -194,8 +194,13 @@ def cmp_spec(c, r, out):
         return f"impl {r}"
     m = proto.parse_vec(out)
     scale = max(abs(float(v)) for v in m)
+    # deepali's maps are float32: a world coordinate of magnitude |w| carries an absolute error of about eps32·|w|,
+    # which the division by the source spacing turns into eps32·|w|/spacing index units (SimpleITK computes in float64)
+    w = max(abs(float(v)) for g in (c["src"], c["tgt"]) for v in (g.get("center") or g.get("origin")))
+    cond = 8 * 1.2e-7 * w / min(float(v) for v in c["src"]["spacing"])
+    dscale = scale + cond / 2e-4
     return (close(r["sitk"], m, 2e-4, scale) and "SimpleITK vs Itk spec: " + close(r["sitk"], m, 2e-4, scale)) or \
-           (close(r["deepali"], m, 2e-4, scale) and "deepali maps vs Itk spec: " + close(r["deepali"], m, 2e-4, scale))
+           (close(r["deepali"], m, 2e-4, dscale) and "deepali maps vs Itk spec: " + close(r["deepali"], m, 2e-4, dscale))
 
 
 STREAMS = PRIM_STREAMS + [
